@@ -12,10 +12,12 @@ import io
 import json
 import os
 import queue
+import random
 import re
 import sys
 import tempfile
 import threading
+import time
 import warnings
 import xml.etree.ElementTree as ET
 
@@ -586,6 +588,10 @@ def har_judge(chk, mechanism, recorders, feds, preserve, variant):
             else:
                 diff("request.postData.text", body.decode("utf-8", "replace"), rq["postData"]["text"])
             diff("request.bodySize", len(body) if body else 0, rq["bodySize"])
+            from urllib.parse import parse_qsl, urlsplit
+            diff("request.queryString", [{"name": k, "value": v} for k, v in parse_qsl(urlsplit(p.url).query, keep_blank_values=True)],
+                 rq["queryString"])
+            diff("request.headersSize", sum(len(k) + 4 + len(v) for k, v in p.headers.items()), rq["headersSize"])
             diff("request.cookies", cookie_names([p.headers["Cookie"]] if "Cookie" in p.headers else []),
                  [c["name"] for c in rq["cookies"]], KF_HAR_COOKIES)
             r = f["response"]
@@ -596,6 +602,9 @@ def har_judge(chk, mechanism, recorders, feds, preserve, variant):
             diff("response.status", r.status_code, rs["status"])
             diff("response.statusText", r.message, rs["statusText"])
             diff("response.bodySize", len(r.content), rs["bodySize"])
+            diff("response.httpVersion", "HTTP/" + r.http_version, rs["httpVersion"])
+            diff("request.httpVersion", "HTTP/" + r.http_version, rq["httpVersion"])
+            diff("response.headersSize", sum(len(k) + 4 + len(v[0]) for k, v in f["orig_headers"].items()), rs["headersSize"])
             diff("response.content.size", len(r.content), rs["content"].get("size", 0))
             diff("response.headers", [{"name": k, "value": v[0]} for k, v in f["orig_headers"].items()], rs["headers"])
             if preserve:
@@ -889,6 +898,18 @@ def codec_corr(chk, rng, n):
         chk.case("repr", key=cps(t), nontrivial=len(t) > 0, sample={"text": cps(t), "impl": repr(t)})
         if cps(repr(t)) != m["out"]:
             chk.disagreement("repr", cps(t), from_cps(m["out"]), repr(t))
+    # get_command_representation
+    argv0s = ["st", "schemathesis", "/usr/bin/st", "/venv/bin/schemathesis", "best", "st.py", "ST", "", "s", "t", "schemathesis ",
+              "python", "/x/__main__.py", "xschemathesis", "st/", "é-st"]
+    argvs = [[rng.choice(argv0s)] + [rng.choice(["run", "-H", "X-A: b c", "", "a  b", "é", "--report=vcr,har", "http://h/o.json"])
+                                     for _ in range(rng.randrange(0, 4))] for _ in range(n // 4)] + [[a] for a in argv0s]
+    outs = drv.batch([("command", {"argv": [cps(a) for a in argv]}) for argv in argvs])
+    for argv, m in zip(argvs, outs):
+        with Argv(argv):
+            impl = C.get_command_representation()
+        chk.case("get_command_representation", key=argv, nontrivial=True, sample={"argv": argv, "impl": impl})
+        if cps(impl) != m:
+            chk.disagreement("get_command_representation", argv, from_cps(m), impl)
     # base64
     blobs = [gen_bytes_any(rng) for _ in range(n)] + [bytes([a]) for a in range(256)] + [bytes([a, 255 - a]) for a in range(0, 256, 5)]
     outs = drv.batch([("b64", {"b": list(b)}) for b in blobs])
@@ -914,6 +935,503 @@ def codec_corr(chk, rng, n):
 def gen_bytes_any(rng):
     from harness.gens.c16_gen import gen_bytes
     return gen_bytes(rng, 20)
+
+
+# ---- several report handlers in one run: initialize_handlers + _execute + the writer threads -------------------------
+#
+# Model: SV.Model.C16 (`mainProgram`, `run`, `cfgOf`), specification: SV.Spec.C16 (`expectedFile`, `reportOK`).
+# A generated input is (report configuration, seed, argv, event history, point where a later handler raises, stall
+# schedule).  The stall schedule makes a chosen writer thread wait inside the loop body of a chosen `Process` message
+# until the main thread has got to a chosen point: this is how interleavings of `SV.Model.C16.run` are realised on the
+# real threads, deterministically.
+
+import contextlib  # noqa: E402
+from pathlib import Path  # noqa: E402
+
+import click  # noqa: E402
+
+from schemathesis.cli.commands.run import executor as X  # noqa: E402
+from schemathesis.cli.commands.run.handlers.base import EventHandler  # noqa: E402
+from schemathesis.cli.commands.run.handlers.output import OutputHandler  # noqa: E402
+from schemathesis.cli.commands.run.reports import ReportConfig  # noqa: E402
+from schemathesis.core.output import OutputConfig  # noqa: E402
+from schemathesis.engine.config import EngineConfig, ExecutionConfig  # noqa: E402
+from schemathesis.filters import FilterSet  # noqa: E402
+
+EXT = {"junit": "xml", "vcr": "yaml", "har": "json"}
+ARGVS = [["st", "run", "http://127.0.0.1/openapi.json", "--report=vcr,har"],
+         ["/usr/local/bin/schemathesis", "run", "http://127.0.0.1/openapi.json"],
+         ["/venv/bin/st", "run", "-H", "X-A: b c", "api.yaml"], ["st"], ["pytest", "tests/"], ["/x/__main__.py", "run"],
+         ["best", "run"], ["st.py", "run"]]
+END, AFTER = "end", "after_shutdown"
+
+
+class Stalls:
+    """Gates that make writer thread `w` wait inside the body of `Process(event e)` until the main thread releases them."""
+
+    def __init__(self, plan):
+        self.driver = threading.current_thread()
+        self.plan = {tuple(k): v for k, v in plan}                      # (event index, writer index) -> release point
+        self.gates = {k: threading.Event() for k in self.plan}
+        self.arrived = {k: threading.Event() for k in self.plan}
+        self.threads = {}
+        self.timed_out = []
+
+    def bind(self, writers):
+        for i, h in enumerate(writers):
+            t = getattr(h, "worker", None)
+            if isinstance(t, threading.Thread):
+                self.threads[t] = i
+
+    def wait(self, e):
+        t = threading.current_thread()
+        if t is self.driver:
+            return
+        key = (e, self.threads.setdefault(t, len(self.threads)))
+        g = self.gates.get(key)
+        if g is not None:
+            self.arrived[key].set()
+            if not g.wait(30):
+                self.timed_out.append(key)
+
+    def release(self, point):
+        for k, v in self.plan.items():
+            if v == point:
+                self.gates[k].set()
+
+    def release_all(self, include_after=True):
+        for k, v in self.plan.items():
+            if include_after or v != AFTER:
+                self.gates[k].set()
+
+
+class GatedInteractions(dict):
+    """`recorder.interactions` whose iteration from a writer thread first passes the gate of (event, that thread)."""
+
+    def __init__(self, d, e, stalls):
+        super().__init__(d)
+        self._e, self._stalls = e, stalls
+
+    def items(self):
+        self._stalls.wait(self._e)
+        return super().items()
+
+    def values(self):
+        self._stalls.wait(self._e)
+        return super().values()
+
+    def keys(self):
+        self._stalls.wait(self._e)
+        return super().keys()
+
+    def __iter__(self):
+        self._stalls.wait(self._e)
+        return super().__iter__()
+
+    # code that copies / pickles the recorder gets a plain dict
+    def __copy__(self):
+        return dict(self)
+
+    def __deepcopy__(self, memo):
+        import copy
+        return copy.deepcopy(dict(self), memo)
+
+    def __reduce__(self):
+        return dict, (dict(self),)
+
+
+def gen_stalls(rng, scen_idx, n_events, n_writers, allow_after):
+    """Non-overlapping stall intervals per writer: [(event, writer), release point]."""
+    plan = []
+    for w in range(n_writers):
+        free_from = 0
+        for e in scen_idx:
+            if e < free_from or rng.random() > 0.4:
+                continue
+            r = rng.random()
+            if allow_after and r < 0.5:
+                plan.append([[e, w], AFTER])
+                break
+            if r < 0.35:
+                plan.append([[e, w], END])
+                break
+            rel = rng.randrange(e, n_events)
+            plan.append([[e, w], rel])
+            free_from = rel + 1
+    return plan
+
+
+def model_schedule(rng, n, events, crash, plan):
+    """The interleaving the stall plan realises, as acts of SV.Model.C16.run ("m" = next put of the main thread,
+    i = one get + loop body of writer i); a few extra writer steps are sprinkled in (no-ops or earlier consumption)."""
+    stalls = {tuple(k): v for k, v in plan}
+    acts, pending, blocked = [], [0] * n, {}
+
+    def drain(w):
+        acts.extend([w] * pending[w])
+        pending[w] = 0
+
+    def release(point):
+        for w in [w for w, v in blocked.items() if v == point]:
+            del blocked[w]
+            drain(w)
+
+    def put(w, stall_key=None):
+        acts.append("m")
+        pending[w] += 1
+        if stall_key in stalls and w not in blocked:
+            blocked[w] = stalls[stall_key]
+        if w not in blocked:
+            drain(w)
+        if rng.random() < 0.15:
+            acts.append(rng.randrange(n + 1))
+
+    for w in range(n):
+        put(w)
+    last = len(events) if crash is None else crash[0] + 1
+    for e in range(min(last, len(events))):
+        if events[e] is not None:
+            for w in range(n if crash is None or e < crash[0] else min(crash[1], n)):
+                put(w, (e, w))
+        if crash is None or e < crash[0]:
+            release(e)
+    if crash is not None:
+        for e in range(len(events)):
+            release(e)
+    release(END)
+    for w in range(n):
+        put(w)
+    release(AFTER)
+    return acts
+
+
+def run_execute(cfgd, evs, plan, crash, tmp):
+    """The real `initialize_handlers` + `_execute` (console handler left out) on the given events."""
+    d = Path(tmp)
+    kw, paths = {}, {}
+    for f in cfgd["formats"]:
+        if f in cfgd["custom_paths"]:
+            paths[f] = d / f"custom-{f}.{EXT[f]}"
+            kw[f"{f}_path"] = LazyFile(str(paths[f]), "w", encoding="utf-8")
+        else:
+            paths[f] = d / "report" / f"{f}.{EXT[f]}"
+    formats = [ReportFormat(f) for f in cfgd["formats"] if f not in cfgd["custom_paths"]]
+    report = ReportConfig(formats=formats, directory=d / "report", preserve_bytes=cfgd["preserve"],
+                          sanitize_output=cfgd["sanitize"], **kw)
+    config = X.RunConfig(location="http://127.0.0.1/openapi.json", base_url=None, filter_set=FilterSet(),
+                         engine=EngineConfig(execution=ExecutionConfig(seed=cfgd["seed"])), wait_for_schema=None, rate_limit=None,
+                         output=OutputConfig(), report=report, args=[], params={})
+    stalls = Stalls(plan)
+    captured = {}
+    real_init = X.initialize_handlers
+    pulled = [0]
+
+    def init_without_console(config):
+        hs = [h for h in real_init(config) if not isinstance(h, OutputHandler)]
+        captured["handlers"] = hs
+        stalls.bind([h for h in hs if isinstance(h, C.CassetteWriter)])
+        return hs
+
+    class Raiser(EventHandler):
+        def handle_event(self, ctx, event):
+            if crash is not None and pulled[0] - 1 == crash[0]:
+                stalls.release_all(include_after=False)
+                raise (click.Abort() if crash[2] == "Abort" else RuntimeError("boom"))
+
+    def stream():
+        for i, (ev, rec) in enumerate(evs):
+            if rec is not None and not isinstance(rec.interactions, GatedInteractions):
+                rec.interactions = GatedInteractions(rec.interactions, i, stalls)
+            pulled[0] = i + 1
+            yield ev
+            for k in [k for k in stalls.plan if k[0] == i]:          # let the stalled writer actually get there
+                stalls.arrived[k].wait(0.3)
+            stalls.release(i)
+        stalls.release(END)
+
+    errors, out = [], io.StringIO()
+    threads_before = set(threading.enumerate())
+    old_hook = threading.excepthook
+    threading.excepthook = lambda a: errors.append(a.exc_value)
+    X.initialize_handlers = init_without_console
+    if crash is not None:
+        X.CUSTOM_HANDLERS.append(Raiser)
+    exc = code = None
+    try:
+        with Argv(cfgd["argv"]), contextlib.redirect_stdout(out), contextlib.redirect_stderr(out):
+            try:
+                X._execute(stream(), config)
+            except SystemExit as e:
+                code = e.code
+            except Exception as e:
+                exc = e
+    finally:
+        X.initialize_handlers = real_init
+        if crash is not None:
+            X.CUSTOM_HANDLERS.remove(Raiser)
+        stalls.release_all()
+        writers = [h for h in captured.get("handlers", []) if isinstance(h, C.CassetteWriter)]
+        alive = []
+        deadline = time.time() + 3
+        for h in writers:
+            t = getattr(h, "worker", None)
+            if isinstance(t, threading.Thread):
+                t.join(max(0.05, deadline - time.time()))
+                alive.append(t.is_alive())
+        for t in set(threading.enumerate()) - threads_before:   # writer threads kept under another attribute name
+            t.join(max(0.05, deadline - time.time()))
+        for h in writers:                                   # never leave a writer thread waiting on its queue behind
+            t, q = getattr(h, "worker", None), getattr(h, "queue", None)
+            for _ in range(4):
+                if isinstance(t, threading.Thread) and t.is_alive() and hasattr(q, "put"):
+                    q.put(C.Finalize())
+                    t.join(0.5)
+        threading.excepthook = old_hook
+    # what the interpreter does at exit: the LazyFile objects the handlers were given are flushed and closed
+    for f in list(kw.values()) + [v for h in captured.get("handlers", []) for v in vars(h).values() if isinstance(v, LazyFile)]:
+        try:
+            f.close()
+        except Exception:
+            pass
+    if "handlers" not in captured or any(isinstance(h, OutputHandler) for h in captured["handlers"]):
+        raise InfraError("could not run _execute without the console handler")
+    raised_by = None
+    if exc is not None:
+        tb = exc.__traceback__
+        while tb is not None and raised_by is None:
+            me = tb.tb_frame.f_locals.get("self")
+            raised_by = next((h for h in captured["handlers"] if h is me), None)
+            tb = tb.tb_next
+    files = {}
+    for f, pth in paths.items():
+        files[f] = pth.read_text(encoding="utf-8") if pth.exists() else None
+    others = sorted(str(q.relative_to(d)) for q in d.rglob("*") if q.is_file() and q not in paths.values())
+    return {"handlers": captured["handlers"], "writers": writers, "exc": exc, "exit_code": code, "raised_by": raised_by,
+            "pulled": pulled[0], "thread_errors": errors, "alive": alive, "files": files, "other_files": others,
+            "gate_timeouts": stalls.timed_out, "console": out.getvalue()}
+
+
+def vcr_chunks(text, serial):
+    """The cassette as the specification sees it: [preamble?] + exchange numbers (PyYAML reads it)."""
+    tree = yaml.load(text, Loader=yaml.BaseLoader)
+    chunks = []
+    if isinstance(tree, dict):
+        if {"command", "recorded_with", "seed", "http_interactions"} <= set(tree):
+            sd = tree["seed"]
+            chunks.append({"preamble": None if sd == "None" else int(sd)})
+        items = tree.get("http_interactions") or []
+    else:
+        items = tree if isinstance(tree, list) else []
+    for it in items:
+        chunks.append(serial.get(it.get("id") if isinstance(it, dict) else None, 10 ** 6))
+    return chunks, tree
+
+
+def har_chunks(text, serial_by_url):
+    doc = json.loads(text)
+    return [serial_by_url.get(e["request"]["url"], 10 ** 6) for e in doc["log"]["entries"]], doc
+
+
+def gen_execute_case(chk, rng, force=None):
+    feat = chk.feature
+    r = rng.random()
+    cassettes = ["vcr", "har"] if r < 0.55 else ["vcr"] if r < 0.75 else ["har"] if r < 0.95 else []
+    if force:
+        cassettes = ["vcr", "har"]
+    fmts = cassettes + (["junit"] if rng.random() < 0.4 else [])
+    rng.shuffle(fmts)
+    cfgd = {"formats": fmts, "custom_paths": [f for f in fmts if rng.random() < 0.25], "preserve": rng.random() < 0.5,
+            "sanitize": rng.random() < 0.3, "seed": rng.choice([None, None, 0, 1, 42, 2 ** 64 + 3]), "argv": rng.choice(ARGVS)}
+    evs, wire_evs, serial, serial_by_url, labels = [], [], {}, {}, set()
+    n_ev = rng.choice([0, 1, 2, 3, 3, 4, 5, 6, 8])
+    for _ in range(n_ev):
+        r = rng.random()
+        if r < 0.12:
+            evs.append((rng.choice([events.EngineStarted(), events.NonFatalError(
+                error=RuntimeError("boom"), phase=W.PhaseName.FUZZING, label="GET /a", related_to_operation=True)]), None))
+            if isinstance(evs[-1][0], events.NonFatalError):
+                labels.add("GET /a")
+            wire_evs.append(None)
+            continue
+        rec, fed = W.gen_recorder(rng, lambda *_: None, n_cases=rng.choice([0, 1, 1, 2, 3]), allow_bad_encoding=False,
+                                  titles=["Server error", "Undocumented HTTP status code"], random_titles=False)
+        for c in rec.cases.values():
+            c.value.meta = c.value.meta or W.CaseMetadata(
+                generation=W.GenerationInfo(time=0.0, mode=W.GenerationMode.POSITIVE), components={}, phase=W.PhaseInfo.generate())
+        for cid, inter in rec.interactions.items():     # this mechanism is about which exchanges land where, not quoting
+            serial[cid] = len(serial)
+            inter.request.uri = f"http://127.0.0.1:8080/x/{serial[cid]}"
+            serial_by_url[inter.request.uri] = serial[cid]
+            inter.request.headers = {k: v for k, v in inter.request.headers.items() if k not in W.BAD_HEADER_NAMES}
+            if inter.response is not None:
+                inter.response.headers = {k: v for k, v in inter.response.headers.items()
+                                          if k not in [b.lower() for b in W.BAD_HEADER_NAMES]}
+                inter.response.content = inter.response.content.replace(b"\xef\xbf", b"..")
+        failing = any(c.status == Status.FAILURE for cs in rec.checks.values() for c in cs)
+        status = Status.FAILURE if failing else rng.choice([Status.SUCCESS, Status.SUCCESS, Status.SKIP, Status.ERROR])
+        evs.append((W.scenario_finished(rec, status, skip_reason="why" if status == Status.SKIP and rng.random() < 0.5 else None), rec))
+        labels.add(rec.label)
+        wire_evs.append([serial[c] for c in rec.interactions])
+    if rng.random() < 0.8:
+        evs.append((events.EngineFinished(running_time=1.0), None))
+        wire_evs.append(None)
+    crash = None
+    if evs and rng.random() < 0.2:
+        crash = [rng.randrange(len(evs)), len(cassettes), rng.choice(["RuntimeError", "Abort"])]
+    scen = [i for i, w in enumerate(wire_evs) if w is not None and (crash is None or i <= crash[0])]
+    plan = gen_stalls(rng, scen, len(evs), len(cassettes), allow_after=force == AFTER)
+    if force and scen and not plan:
+        plan = [[[scen[0], 0], AFTER if force == AFTER else END]]
+    feat(f"execute:cassettes={'+'.join(cassettes) or 'none'}")
+    feat(f"execute:junit={'junit' in fmts}")
+    feat(f"execute:stalls={min(len(plan), 3)}")
+    feat(f"execute:crash={'none' if crash is None else crash[2]}")
+    for _, v in plan:
+        feat(f"execute:release={'event' if isinstance(v, int) else v}")
+    return cfgd, evs, wire_evs, crash, plan, serial, serial_by_url, labels
+
+
+def execute_judge(chk, mechanism, cases, vcr_variant):
+    """Correspondence (model run on the same configuration / history / interleaving) and replay (the specification and
+    independent parsers judge the files the real handlers wrote)."""
+    drv = chk.driver()
+    results = []
+    with tempfile.TemporaryDirectory(prefix="c16-") as tmp:
+        for n, case in enumerate(cases):
+            cfgd, evs, wire_evs, crash, plan = case[:5]
+            os.mkdir(os.path.join(tmp, str(n)))
+            results.append(run_execute(cfgd, evs, plan, crash, os.path.join(tmp, str(n))))
+    reqs = []
+    for case, res in zip(cases, results):
+        cfgd, evs, wire_evs, crash, plan = case[:5]
+        real_fmts = [h.format.value for h in res["writers"]]
+        eff_crash = crash[:2] if crash is not None else None
+        if res["exc"] is not None and crash is None:            # a built-in handler raised: the loop stopped at that event
+            pos = res["handlers"].index(res["raised_by"]) if res["raised_by"] in res["handlers"] else len(res["handlers"])
+            eff_crash = [res["pulled"] - 1, sum(1 for h in res["handlers"][:pos] if isinstance(h, C.CassetteWriter))]
+        case.append(eff_crash)
+        reqs.append(("init_handlers", {"formats": cfgd["formats"]}))
+        reqs.append(("multi", {"fmts": real_fmts, "seed": cfgd["seed"], "events": wire_evs, "crash": eff_crash,
+                               "sched": model_schedule(random.Random(len(reqs)), len(real_fmts), wire_evs, eff_crash, plan)}))
+    outs = drv.batch(reqs)
+    text_cmp = []
+    for n, (case, res) in enumerate(zip(cases, results)):
+        cfgd, evs, wire_evs, crash, plan, serial, serial_by_url, labels, eff_crash = case
+        m_init, m = outs[2 * n], outs[2 * n + 1]
+        for o in (m_init, m):
+            if isinstance(o, dict) and "__err__" in o:
+                raise InfraError(f"model error {o}")
+        if res["gate_timeouts"]:
+            raise InfraError(f"a stalled writer was not released: {res['gate_timeouts']}")
+        real_fmts = [h.format.value for h in res["writers"]]
+        enabled = "+".join(sorted(cfgd["formats"])) or "none"
+        entries = [None if w is None else [W.wire_entry(rec, cid) for cid in rec.interactions] for (ev, rec), w in zip(evs, wire_evs)]
+        replay = {"kind": "execute", "config": cfgd, "events": wire_evs, "entries": entries,
+                  "labels": [None if rec is None else rec.label for _, rec in evs],
+                  "event_kinds": [type(ev).__name__ for ev, _ in evs],
+                  "statuses": [getattr(ev, "status", None) and ev.status.value for ev, _ in evs],
+                  "crash": crash, "stalls": plan, "files": {k: (v if v is None else v[:3000]) for k, v in res["files"].items()}}
+        key = [cfgd, wire_evs, crash, plan]
+        chk.case(mechanism, key=key, nontrivial=len(real_fmts) > 0 and any(w for w in wire_evs if w),
+                 sample={"config": cfgd, "events": wire_evs, "crash": crash, "stalls": plan})
+        sig = f"C16:_execute:{enabled}:"
+        # ---- initialize_handlers: which writers exist, in which order; the interleaving was a complete one in the model
+        if m_init != real_fmts:
+            chk.disagreement(mechanism, {"aspect": "initialize_handlers", "formats": cfgd["formats"]}, m_init, real_fmts)
+        if not m["own_queues"] or m["pc_left"] != 0 or not all(w["done"] and w["out"] == e for w, e in zip(m["writers"], m["expected"])):
+            raise InfraError(f"the model did not complete on the generated interleaving: {m}")
+        # ---- the run itself
+        exc = res["exc"]
+        if exc is not None:
+            by = type(res["raised_by"]).__name__ if res["raised_by"] is not None else "?"
+            if crash is not None and isinstance(exc, RuntimeError) and str(exc) == "boom":
+                chk.feature("execute:handler-error-propagated")
+            elif by == "JunitXMLHandler" and type(exc).__name__ == "ExpatError":
+                chk.violation(KF_JUNIT_XMLCHAR, f"writing the JUnit report raised {exc!r}", replay)
+            elif by == "JunitXMLHandler" and isinstance(exc, LookupError) and not isinstance(exc, KeyError):
+                chk.violation(KF_JUNIT_CHARSET, f"JunitXMLHandler raised {exc!r}", replay)
+            else:
+                chk.violation(f"{sig}raises-{type(exc).__name__}-in-{by}", f"_execute raised {exc!r} (handler {by}): the run aborts",
+                              {**replay, "error": repr(exc), "console": res["console"][-1500:]})
+        elif crash is not None:
+            chk.feature("execute:handler-abort-ends-the-run")        # how the run ends is not C16's business; the reports are
+        if res["thread_errors"] or any(res["alive"]):
+            chk.violation(f"{sig}writer-thread-died-or-did-not-return", f"a writer thread died or did not return after Finalize: "
+                          f"{res['thread_errors']!r} alive={res['alive']}", replay)
+            continue
+        if res["other_files"]:
+            chk.feature("execute:files-besides-the-requested-reports")
+        # ---- every requested report, read back
+        for wi, fmt in enumerate(real_fmts):
+            text = res["files"].get(fmt)
+            delivered = wire_evs if eff_crash is None else wire_evs[:eff_crash[0] + (1 if wi < eff_crash[1] else 0)]
+            if text is None:
+                chk.violation(f"{sig}{fmt}-report-file-missing", f"no {fmt} report at the configured path", replay)
+                continue
+            try:
+                observed, doc = vcr_chunks(text, serial) if fmt == "vcr" else har_chunks(text, serial_by_url)
+            except Exception as e:
+                chk.violation(f"{sig}{fmt}-report-not-parseable", f"the {fmt} report cannot be read back: {type(e).__name__}: {e}",
+                              {**replay, "format": fmt})
+                continue
+            if observed != m["writers"][wi]["out"]:
+                chk.disagreement(mechanism, {"aspect": f"{fmt} report", "config": cfgd, "events": wire_evs, "crash": eff_crash,
+                                             "stalls": plan}, m["writers"][wi]["out"], observed)
+            case_judge = ("judge_report", {"fmt": fmt, "seed": cfgd["seed"], "delivered": delivered, "observed": observed})
+            exp = ([{"preamble": cfgd["seed"]}] if fmt == "vcr" else []) + [i for w in delivered if w for i in w]
+            text_cmp.append((case_judge, observed == exp, sig, fmt, replay, observed, exp))
+            if fmt == "vcr" and not cfgd["sanitize"] and observed == exp:
+                text_cmp.append((("vcr_doc", {"variant": vcr_variant, "preserve": cfgd["preserve"], "argv": [cps(a) for a in cfgd["argv"]],
+                                              "version": cps(SCHEMATHESIS_VERSION), "seed": cps(str(cfgd["seed"])),
+                                              "recorders": [e for e, w in zip(entries, wire_evs) if w is not None][:len([w for w in delivered if w is not None])]}),
+                                 text, sig, fmt, replay, key, None))
+        # ---- JUnit next to the cassettes (the JUnit handler comes first: it has seen the event a later handler raised at)
+        if "junit" in cfgd["formats"] and (exc is None or crash is not None):
+            upto = len(evs) if eff_crash is None else eff_crash[0] + 1
+            if any(isinstance(ev, events.EngineFinished) for ev, _ in evs[:upto]):
+                seen = {rec.label for _, rec in evs[:upto] if rec is not None} | \
+                       {ev.label for ev, _ in evs[:upto] if isinstance(ev, events.NonFatalError)}
+                try:
+                    names = {tc.get("name") for tc in ET.fromstring(res["files"].get("junit") or "").iter("testcase")}
+                    if names != seen:
+                        chk.violation(f"{sig}junit-testcases-differ-from-labels", f"test cases {sorted(names)} vs labels {sorted(seen)}", replay)
+                except ET.ParseError as e:
+                    chk.violation(f"{sig}junit-report-not-wellformed", f"the JUnit report is not well-formed XML: {e}", replay)
+    # ---- the specification's verdict on what was read back, and the cassette text against the model
+    outs = drv.batch([t[0] for t in text_cmp])
+    for (req, b, sig, fmt, replay, x, y), o in zip(text_cmp, outs):
+        if req[0] == "judge_report":
+            if o != b:
+                raise InfraError(f"Lean reportOK and the Python oracle disagree on {req}")
+            if not o:
+                chk.violation(f"{sig}{fmt}-report-differs-from-delivered-exchanges",
+                              f"the {fmt} report does not list each delivered exchange exactly once in order"
+                              f"{' after its preamble' if fmt == 'vcr' else ''}: read back {x}, delivered {y}",
+                              {**replay, "format": fmt, "observed": x, "expected": y})
+        else:
+            if isinstance(o, dict) and "__err__" in o:
+                raise InfraError(f"model error {o}")
+            if from_cps(o["text"]) != b and not text_is_variant_mix(drv, b, req):
+                chk.disagreement(mechanism, {"aspect": "cassette text", "key": x}, from_cps(o["text"]), b)
+
+
+def text_is_variant_mix(drv, text, req):
+    """A cassette that is, line by line, one of the two model variants up to the quoting style (a partial repair)."""
+    alts = drv.batch([(req[0], {**req[1], "variant": v}) for v in ("asFound", "repaired")])
+    parsed = drv.batch([("parse_doc", {"t": cps(text)}), ("parse_doc", {"t": alts[1]["text"]})])
+    a, r = from_cps(alts[0]["text"]).split("\n"), from_cps(alts[1]["text"]).split("\n")
+    lines = text.split("\n")
+    if not (len(lines) == len(a) == len(r) == len(parsed[0]["lines"]) == len(parsed[1]["lines"])):
+        return False
+    return all(ln == la or ln == lr or (ti is not None and ti == tr)
+               for ln, la, lr, ti, tr in zip(lines, a, r, parsed[0]["lines"], parsed[1]["lines"]))
+
+
+def execute_corr(chk, rng, n, n_after, vcr_variant):
+    cases = [list(gen_execute_case(chk, rng)) for _ in range(n)]
+    cases += [list(gen_execute_case(chk, rng, force=END)) for _ in range(max(2, n // 10))]
+    cases += [list(gen_execute_case(chk, rng, force=AFTER)) for _ in range(n_after)]
+    execute_judge(chk, "_execute:report-handlers", cases, vcr_variant)
 
 
 # ---- run ------------------------------------------------------------------------------------------------------------
@@ -979,13 +1497,22 @@ def run(chk):
         "FAILURE scenario brings a fresh failure or an already-failing label); junit_repaired_total (all histories); "
         "junit_failure_recorded",
         "har_asFound_always_empty (response mimeType / redirectURL / cookies look-ups are empty for every response); "
-        "har_repaired_finds"]
+        "har_repaired_finds",
+        "execute_cassette_exactly_once / execute_reports_exactly_once / init_handlers_own_queues: for every set of report "
+        "handlers initialize_handlers builds, every seed, event history, handler error point and EVERY interleaving of _execute "
+        "with the writer threads, what a cassette writer has written is a prefix of [preamble] + each delivered exchange once in "
+        "order, equal to it once the writer returned, and no writer waits forever; execute_completes: from any point the writers "
+        "can be run to completion (no deadlock); shared_queue_full_false: the 'own queue object' hypothesis cannot be dropped",
+        "command_repr_spec: get_command_representation"]
     chk.partial += [
         "the full VCR theorem is about the repaired writer; as found only the per-site partial theorems and the witnesses hold",
         "the repr() site (check message) is modelled for ASCII titles only; wider titles are judged by replay (PyYAML) only",
         "HAR: only the response-header look-ups are modelled; all other HAR fields are compared by replay against json.load",
-        "writer thread / queue / 1 s join timeout are runtime behaviour: FIFO exactly-once is proved on the model "
-        "(renderCassette, vcr_exactly_once) and sampled on the real CassetteWriter thread",
+        "writer threads: the interleaving theorems are about the model's atomic steps (one queue.put / one queue.get + loop body); "
+        "on the real threads a generated stall schedule (a chosen writer waits inside a chosen Process body until the main thread "
+        "reaches a chosen point, incl. past shutdown's 1 s join) realises interleavings deterministically; wall-clock behaviour of "
+        "the join timeout itself is not modelled",
+        "_execute is driven without the console OutputHandler (initialize_handlers' result minus OutputHandler)",
         "write_double_quoted's run-flushing loop is modelled as its character-wise concatenation (validated by correspondence)"]
     chk.sampled_only += [
         "bytes.decode(codec, 'replace') (CPython): losslessness of UTF-8 body text is checked on generated bodies, not proved",
@@ -1026,6 +1553,7 @@ def run(chk):
     vcr_judge(chk, "vcr_writer:sanitize_output", recs, feds, False, vcr_variant, sanitize=True)
     threaded_cassette(chk, rng, ReportFormat.VCR, chk.budget(25, 200))
     threaded_cassette(chk, rng, ReportFormat.HAR, chk.budget(15, 100))
+    execute_corr(chk, rng, chk.budget(50, 600), chk.budget(2, 10), vcr_variant)
 
     # 3. HAR
     for preserve in (False, True):
@@ -1088,6 +1616,47 @@ def replay(chk, data):
                 m = chk.driver().one("vcr_doc", {"variant": v, "preserve": r["preserve"], "command": cps(command),
                                                  "version": cps(SCHEMATHESIS_VERSION), "seed": cps("1"), "recorders": [r["entries"]]})
                 print(f"model {v}: {'same text as the implementation' if from_cps(m['text']) == text else from_cps(m['text'])}")
+    elif kind == "execute":
+        cfgd = r["config"]
+        evs, serial, by_url = [], {}, {}
+        for k, label, status, entries, ids in zip(r["event_kinds"], r["labels"], r["statuses"], r["entries"], r["events"]):
+            if k == "ScenarioFinished":
+                rec = W.recorder_from_wire(entries, label=label)
+                for e, i in zip(entries, ids):
+                    serial[from_cps(e["id"])] = i
+                    by_url[from_cps(e["uri"])] = i
+                evs.append((W.scenario_finished(rec, Status(status)), rec))
+            elif k == "EngineFinished":
+                evs.append((events.EngineFinished(running_time=1.0), None))
+            elif k == "NonFatalError":
+                evs.append((events.NonFatalError(error=RuntimeError("boom"), phase=W.PhaseName.FUZZING, label="GET /a",
+                                                 related_to_operation=True), None))
+            else:
+                evs.append((events.EngineStarted(), None))
+        print("config   :", json.dumps(cfgd))
+        print("events   :", json.dumps(r["events"]), " (exchange numbers per ScenarioFinished, null = another event)")
+        print("handler raising at [event, after this many writers, exception]:", r["crash"])
+        print("stalls   :", json.dumps(r["stalls"]), " ([[event, writer], released after event | end | after_shutdown])")
+        with tempfile.TemporaryDirectory(prefix="c16-") as tmp:
+            res = run_execute(cfgd, evs, r["stalls"], r["crash"], tmp)
+        fmts = [h.format.value for h in res["writers"]]
+        print("impl now : exception =", repr(res["exc"]), "exit code =", res["exit_code"], "writer threads alive =", res["alive"])
+        for f in fmts:
+            text = res["files"].get(f)
+            try:
+                obs = None if text is None else (vcr_chunks(text, serial) if f == "vcr" else har_chunks(text, by_url))[0]
+            except Exception as e:
+                obs = f"unreadable: {e!r}"
+            print(f"impl now : {f} report lists {obs}")
+        eff = r["crash"][:2] if r["crash"] else None
+        m = chk.driver().one("multi", {"fmts": fmts, "seed": cfgd["seed"], "events": r["events"], "crash": eff,
+                                       "sched": model_schedule(random.Random(0), len(fmts), r["events"], eff, r["stalls"])})
+        for f, w in zip(fmts, m["writers"]):
+            print(f"model    : {f} report lists {w['out']} (writer returned: {w['done']})")
+        for f in r.get("files", {}):
+            if f == r.get("format"):
+                print(f"--- recorded {f} report ---")
+                print(r["files"][f])
     elif kind == "threaded":
         print("recorded:", json.dumps(r)[:4000])
     else:
